@@ -131,7 +131,7 @@ static Level fam_spellings(const std::vector<std::string> &S) {
 static Level fam_literal_boundary(const std::vector<std::string> &S) {
   return {"seeds:literal boundary", [=](const CB &cb) {
             for (auto &s : S) { auto t = split_ws(s);
-              for (size_t i = 0; i < t.size(); i++) if (t[i] == "0" || t[i] == "7") for (auto l : {"2147483645", "2147483646", "2147483647", "2147483648", "99999999999999999999"}) { auto u = t; u[i] = l; cb(single(join(u))); } } }};
+              for (size_t i = 0; i < t.size(); i++) if (t[i] == "0" || t[i] == "7") { std::vector<std::string> L2 = {"2147483645", "2147483646", "2147483647", "2147483648", "4294967295", "4294967296", "9223372036854775807", "9223372036854775808", "18446744073709551616"}; for (int n = 9; n <= 40; n += (n < 22 ? 1 : 6)) L2.push_back(std::string(n, '9')); for (auto &l : L2) { auto u = t; u[i] = l; cb(single(join(u))); } } } }};
 }
 
 // ---- sentences of the reference grammar, by length ------------------------------------------------------------------
